@@ -3,7 +3,8 @@
    result of lint_file in a fresh Orchestrator, the finalize() report after no file and after all
    files.  Violations are interned (c_vtab) and referred to by index.  The judge returns
      [ domain ok ; impl sequential = model sequential ; impl parallel ~ impl sequential (the property) ;
-       model ideal parallel ~ model sequential ; impl parallel = model parallel under each candidate ]. *)
+       model ideal parallel ~ model sequential ; impl parallel = model parallel under each candidate ;
+       the case is in the class of theorem C07_errors_swallowed ]. *)
 From TL Require Import Lib.Base Lib.GenTypes Model.OrchParTypes Gen.OrchParGen Model.OrchPar.
 
 Record pcase := {
@@ -75,6 +76,14 @@ Definition domain_ok (c : pcase) : bool :=
   && is_perm_of_range (c_sched c) (nfiles c)
   && match c_cmd c with None => true | Some n => match assoc n cli_commands with Some _ => true | None => false end end.
 
+(* the class of C07_errors_swallowed: some file raises, the worker pool is used, the handlers swallow: the
+   sequential run raises and the parallel run returns normally, whatever it returns *)
+Definition err_explained (q : pquirks) (c : pcase) : bool :=
+  swallows q
+  && negb (below_threshold nat (c_mw c) (c_cpu c) (files_of c))
+  && match mapM (m_perfile c) (files_of c) with None => true | Some _ => false end
+  && match c_cmd c, c_seq c, c_par c with None, None, Some _ => true | _, _, _ => false end.
+
 Definition judge (q : pquirks) (c : pcase) : list bool :=
   let impl_seq := (option_map (look c) (c_seq c), c_seq_exit c) in
   let impl_par := (option_map (look c) (c_par c), c_par_exit c) in
@@ -82,4 +91,5 @@ Definition judge (q : pquirks) (c : pcase) : list bool :=
   :: obs_eq true impl_seq (view c (m_seq c))
   :: obs_eq false impl_par impl_seq
   :: obs_eq false (view c (m_par ideal c)) (view c (m_seq c))
-  :: map (fun k => obs_eq (c_ordered c) impl_par (view c (m_par k c))) (candidates q).
+  :: map (fun k => obs_eq (c_ordered c) impl_par (view c (m_par k c))) (candidates q)
+  ++ [err_explained q c].
